@@ -272,3 +272,81 @@ def env_at(parents, target, mutated=frozenset(), base=None):
                     else:
                         bind_pattern(st["pat"], None, env)
     return env
+
+
+def diverges(node):
+    """Does this branch leave the enclosing loop iteration / function on every path (its last statement or tail is a
+    return / break / continue)?"""
+    n = node
+    for _ in range(8):
+        if not isinstance(n, dict):
+            return False
+        k = n.get("k")
+        if k == "Block":
+            blk = n["block"]
+            if "expr" in blk:
+                n = blk["expr"]
+            elif blk["stmts"]:
+                n = blk["stmts"][-1].get("e") or {}
+            else:
+                return False
+        elif k in ("DropTemps", "Use"):
+            n = n["e"]
+        else:
+            break
+    return isinstance(n, dict) and n.get("k") in ("Ret", "Break", "Continue")
+
+
+def path_conditions(parents, target):
+    """Conditions known at `target` from the shape of the code, as (condition expression, holds) pairs:
+    enclosing `if c {T} else {E}` (c holds in T, fails in E) and earlier `if c { return/break/continue }` statements of
+    every enclosing block (c fails afterwards)."""
+    out = []
+    tk = _span_key(target.get("span"))
+    for anc, key in parents:
+        if not isinstance(anc, dict):
+            continue
+        if anc.get("k") == "If" and key in ("then", "else"):
+            out.append((anc["cond"], key == "then"))
+        if "stmts" in anc and "k" not in anc:
+            for st in anc["stmts"]:
+                if st.get("s") != "Expr":
+                    continue
+                e = st.get("e") or {}
+                while e.get("k") in ("DropTemps", "Use"):
+                    e = e["e"]
+                if e.get("k") != "If" or "else" in e or not diverges(e["then"]):
+                    continue
+                sk = _span_key(e.get("span"))
+                if tk and sk and sk[0] == tk[0] and sk[2] <= tk[1]:
+                    out.append((e["cond"], False))
+    return out
+
+
+def upper_bounds(parents, target, env, mutated=frozenset()):
+    """(term, bound term, strict) triples: `term < bound` (strict) or `term <= bound` known at target from path conditions.
+    Conjunctions that hold and disjunctions that fail are split."""
+    res = []
+
+    def add(c, holds):
+        while c.get("k") in ("DropTemps", "Use"):
+            c = c["e"]
+        if c.get("k") == "Unary" and c.get("op") == "Not":
+            return add(c["e"], not holds)
+        if c.get("k") == "Binary" and ((c["op"] == "And" and holds) or (c["op"] == "Or" and not holds)):
+            add(c["l"], holds)
+            add(c["r"], holds)
+            return
+        if c.get("k") == "Binary" and c["op"] in ("Lt", "Le", "Gt", "Ge"):
+            op = c["op"]
+            l, r = term(c["l"], env, mutated), term(c["r"], env, mutated)
+            if not holds:
+                op = {"Lt": "Ge", "Le": "Gt", "Gt": "Le", "Ge": "Lt"}[op]
+            if op in ("Lt", "Le"):
+                res.append((l, r, op == "Lt"))
+            else:
+                res.append((r, l, op == "Gt"))
+
+    for c, holds in path_conditions(parents, target):
+        add(c, holds)
+    return res
